@@ -141,6 +141,9 @@ type Cluster struct {
 	depth   int
 	plan    *Plan
 	Panic   string
+	// Outside, when set by a scenario's own action, says why the rest of the execution is outside the premise of the
+	// liveness property (the liveness oracle then only counts the execution)
+	Outside string
 	TxSeq   map[int]int
 	// all transactions ever submitted (by content) → count
 	Submitted map[string]int
